@@ -65,7 +65,10 @@ fn readers(a: &Args, o: &mut Obs) {
             o.sample(format!("{case}: tree={} model_len={} ops={:?} path={} fin={:?}", spec.shape(), spec.model().len(), ops, PATHS[path], fin));
         }
         o.cell(format!("tree|depth{}|{}", spec.depth(), spec.shape().split('(').next().unwrap_or("")));
-        rd::run_case(o, &spec, &ops, path, fin, &case);
+        let h = rd::run_case(o, &spec, &ops, path, fin, &case);
+        if a.flag("digest") {
+            println!("DIGEST rd {g} {h:016x}");
+        }
     }
 }
 
@@ -154,7 +157,13 @@ fn implementors(bytes: &[u8], cut1: usize, cut2: Option<usize>, extra_tail: &[u8
         _ => parts.push(all[c1..].to_vec()),
     }
     let seg = |k: u8| Spec::Seg(k, parts.clone());
-    vec![
+    let mut extra: Vec<(&'static str, Spec)> = Vec::new();
+    if n == 0 {
+        // an io::Cursor positioned strictly beyond its data holds nothing
+        extra.push(("CursorPast", Spec::Cursor(5, vec![0xAA; 2])));
+        extra.push(("CursorPastEmpty", Spec::Cursor(1, Vec::new())));
+    }
+    let mut v = vec![
         ("slice", Spec::Slice(all.clone())),
         ("Bytes", Spec::Bytes(c1 % 5, all.clone())),
         ("BytesMut", Spec::BytesMut(c1 % 3, all.clone())),
@@ -168,7 +177,9 @@ fn implementors(bytes: &[u8], cut1: usize, cut2: Option<usize>, extra_tail: &[u8
         ("Chain", Spec::Chain(false, Box::new(Spec::Slice(all[..c1].to_vec())), Box::new(Spec::Bytes(1, all[c1..].to_vec())))),
         ("ChainSeg", Spec::Chain(true, Box::new(seg(0)), Box::new(Spec::Slice(Vec::new())))),
         ("Take", Spec::Take(n, false, Box::new(Spec::Chain(false, Box::new(seg(1)), Box::new(Spec::Slice(vec![0x55; 3])))))),
-    ]
+    ];
+    v.extend(extra);
+    v
 }
 
 #[allow(clippy::too_many_arguments)]
